@@ -27,7 +27,7 @@ def search(rep, tier, seed, reason=""):
     """Search for a concrete failing input with the wire ledger on fresh, deeper runs."""
     total = 0
     for k in range(4 if tier == "quick" else 12):
-        for prof in ("flow", "mixed", "reset"):
+        for prof in ("bp", "flow", "mixed", "reset"):
             scs, _ = sendflow.gen_scenarios(seed * 104729 + k * 17 + len(prof), 150, 140, prof, snap=False)
             total += len(scs)
             before = len(rep.violations)
